@@ -60,6 +60,18 @@ CLAIMS = {
                   "validated against the real interpreter on every generated run.",
         technique="Lean 4 semantic-preservation proof by induction on a fuel-indexed evaluator + regenerated rule table + two-route differential runs",
         ref="§3 C06"),
+    "C09": dict(
+        text="Model/Runtime.lean is the analysis of analysis/runtime.py on the program language (both branches, loop body once, "
+             "invoked subroutines, closures, recursion cut-off, dynamic call = refusal); which statements mark a frame quantum is a "
+             "table regenerated from the 'runtime' method-table registry on every run and C09_registry_complete / _exact are decided "
+             "over it. The model's answer is compared with RuntimeAnalysis.has_quantum_runtime on generated programs, and the "
+             "property itself is checked against ground truth: event logs of the same compiled kernel over the whole argument domain "
+             "(answer False and an acting run => violation; syntactically quiet call graph => must answer False). "
+             "Partial: the soundness theorem of the analysis model w.r.t. the evaluator (answer no => no event on any run) is not "
+             "proved yet; soundness is currently carried by the ground-truth comparison.",
+        note=TB + "Partial (see text). kirin's forward-analysis framework and const hints are exercised, not modelled.",
+        technique="Lean 4 model + regenerated registry table (decide) + differential correspondence against executed ground truth",
+        ref="§3 C09"),
     "C11": dict(
         text="Theorems: every path the tracer model returns satisfies the well-formedness recogniser WF (invariant by "
              "induction over arbitrary operation sequences), and reversal preserves WF (forward/backward automaton gluing "
